@@ -23,14 +23,14 @@ class C04(T.SeqCases, S.SchedCheck):
     level_note = "PARTIAL under G04; the theorems are for fault-free programs: single-fault programs (failing doer's group last at every level) are covered by oracle + correspondence only.  The oracle compares two runs of the real code; the model is used only by the correspondence."
     trusted_base = S.SchedCheck.trusted_base + [
         "oracle harness/areas/schedt.py: run_program on the nested program and on flatten_specs(program); leaf_view / c04_clauses compare them"]
-    assumptions = ["programs are op-free; fault-free, or with ONE raise/KeyboardInterrupt at a step of a leaf whose transparent group comes last at every level (elsewhere the nested exit order is children-before-parent by design and differs from the flat one)",
+    assumptions = ["programs are op-free; fault-free, or with ONE raise/KeyboardInterrupt at a step of a leaf whose transparent group comes last at every level, or ONE failing enter anywhere (elsewhere the nested exit order is children-before-parent by design and differs from the flat one)",
                    "IEEE-754 doubles satisfy LawfulTyme on the values used (no Lean instance)"]
     rule = ("random op-free fault-free forests (leaves, optionally DoDoers with tock > 0) + random regroupings of consecutive siblings under DoDoer(tock=0): every level, nested (depth <= 4), "
             "empty groups, groups at every position; scripts positive* asap* / asap-then-positive / mixed; limits incl. non-multiples; starts != 0; non-dyadic tocks.  "
-            "2 in 9 programs carry one fault (raise / KeyboardInterrupt at a step, mid cycle, live siblings before and after it in its group, the group last at every level): forced-exit order nested vs flat; ~40% of the cases reach the same program through a history or another entry point (schedt.run_var: seq, same Doist twice, faulted first run, pre-wound, ints, iterator, doers at init, __call__, hand-driven enter/recur/exit, DoDoer opts); formerly: 30% of the cases are SECOND runs (the same nested / flat doer objects first run under another Doist with another start tyme, cut by a limit, then under a fresh Doist).  thorough: every single and double regrouping of 4 fixed 3..4-leaf programs.  non-trivial = the nested program has a transparent group holding >= 1 live leaf and >= 8 recur events; distinct by request line")
+            "40% of the flat/nested/g04 programs hold waiter doers that READ a sibling's .done (function-style targets whose flag comes from the return value; waiter after / before its target, inside / outside its group); 2 in 9 programs carry one fault — a raise/KeyboardInterrupt at a step under the last-group guard, or (40% of them) a failing ENTER of any member at any position of any group, nested too (raise / KeyboardInterrupt at a step, mid cycle, live siblings before and after it in its group, the group last at every level): forced-exit order nested vs flat; ~40% of the cases reach the same program through a history or another entry point (schedt.run_var: seq, same Doist twice, faulted first run, pre-wound, ints, iterator, doers at init, __call__, hand-driven enter/recur/exit, DoDoer opts); formerly: 30% of the cases are SECOND runs (the same nested / flat doer objects first run under another Doist with another start tyme, cut by a limit, then under a fresh Doist).  thorough: every single and double regrouping of 4 fixed 3..4-leaf programs.  non-trivial = the nested program has a transparent group holding >= 1 live leaf and >= 8 recur events; distinct by request line")
 
     def corpus(self):
-        return list(T.TIMING_CORPUS) + list(T.FAULT_CORPUS) + list(T.DEGENERATE_CORPUS) + self.seq_corpus(T.TIMING_CORPUS)
+        return list(T.TIMING_CORPUS) + list(T.WAITER_CORPUS) + list(T.FAULT_CORPUS) + list(T.ENTER_FAULT_CORPUS) + list(T.DEGENERATE_CORPUS) + self.seq_corpus(T.TIMING_CORPUS + T.WAITER_CORPUS)
 
     def exhaustive(self, tier):
         if tier != "thorough":
@@ -57,7 +57,7 @@ class C04(T.SeqCases, S.SchedCheck):
                     made += 1
                     continue
                 if kind == "fault":
-                    yield T.gen_faulted(rng)
+                    yield T.gen_faulted(rng) if rng.random() < 0.6 else T.gen_enter_fault(rng)
                     made += 1
                     continue
                 c = T.gen_timed(rng, kind)
@@ -73,6 +73,10 @@ class C04(T.SeqCases, S.SchedCheck):
         return T.request_head("flatpair", self.base(case))
 
     def run_impl(self, case):
+        with T.waiters():
+            return self._run_impl(case)
+
+    def _run_impl(self, case):
         T.settle_heap()
         if case[0] in ("seq", "var"):
             # nested objects and flat objects each go through the same history / entry point; those runs are compared
@@ -107,6 +111,8 @@ class C04(T.SeqCases, S.SchedCheck):
             f.append("stopped-by-limit")
         if T.g04_break_reached(case, obs.a, None):
             f.append("G04-broken-reached")
+        if T.enter_fault_only(case):
+            f.append("enter-fault-inside-forest:" + obs.a["raised"])
         if not T.fault_free(case) and T.single_fault_last_path(case):
             f.append("fault-in-last-group:" + obs.a["raised"])
             live = [e[0] for e in obs.a["trace"] if e[1] == "cease"]
@@ -118,7 +124,7 @@ class C04(T.SeqCases, S.SchedCheck):
         case = self.base(case)
         if not T.op_free(case):
             return []
-        if not T.fault_free(case) and not T.single_fault_last_path(case):
+        if not T.fault_free(case) and not T.single_fault_last_path(case) and not T.enter_fault_only(case):
             return []          # with a fault elsewhere nested closes children before the parent's later siblings: differs by design
         vn, vf = self.views(case, obs)
         return T.c04_clauses(vn, vf)
